@@ -154,6 +154,11 @@ func TestC08(t *testing.T) {
 			if kind == 2 && r.Bool(60) {
 				inf, drop = int64(scout.EstFloat())+1, false
 			}
+			if kind == 3 && g2k == 0 && r.Bool(12) {
+				// a completion below the clock's resolution (RTT 0) against a small positive RTT
+				lo, hi = 0, r.Pick(1, 1000, base/2+1, base)
+				inf, drop = int64(scout.EstFloat())+1, false
+			}
 			if directed && r.Bool(80) {
 				inf, drop = int64(scout.EstFloat())+1, false
 			}
